@@ -7,7 +7,7 @@ tier="${1:-quick}"; shift || true
 export CARGO_NET_OFFLINE=true
 mkdir -p "$HERE/build"
 # rebuild the extension module from /repo's current working tree (own target dir, nothing is written to /repo)
-( cd /repo && cargo build --features python --lib --offline --target-dir "$HERE/build/target" >"$HERE/build/build.log" 2>&1 )
+( cd "${VERIF_REPO:-/repo}" && cargo build --features python --lib --offline --target-dir "$HERE/build/target" >"$HERE/build/build.log" 2>&1 )
 if [ $? -ne 0 ]; then echo "BUILD-FAILED property=C20 (python extension; see py/build/build.log)"; tail -15 "$HERE/build/build.log"; exit 2; fi
 cp "$HERE/build/target/debug/libivp.so" "$HERE/build/ivp.abi3.so" || { echo "INCONCLUSIVE property=C20 extension module not produced"; exit 2; }
 PY=python3-vt
